@@ -100,6 +100,9 @@ def run(ctx):
     ctx.section(_tokens, ctx, index)
     ctx.section(_position, ctx, index)
     ctx.section(_cut, ctx, index)
+    from . import c10 as _c10_state
+
+    ctx.section(_c10_state.state_slice, ctx, 'C15.state', ['cdd.shared.docstring_utils.parse_docstring_into_header_args_footer', 'cdd.docstring.emit.docstring', 'cdd.docstring.parse.docstring'], 5)
     ctx.explanation = (
         "Def-use shape of the three values returned by parse_docstring_into_header_args_footer: each must be "
         "a plain slice of the input string at boundaries produced by _get_token_start_idx / "
